@@ -181,7 +181,50 @@ def h_default_n(h):
     h.check(m2.asked == [77], "explicit-n-honoured")
 
 
+def h_large_sample(h):
+    """CONCRETE (not solver-based): one large sample (the symbolic bound is 51-80 points), every edge against the
+    empirical quantile of the projected sample - guards code paths that depend on the sample size"""
+    if h.sym:
+        h.note("concrete obligation: decided by the run on the real libraries only")
+        return
+    C = shim.mod("contours")
+    n, deg, alpha = h.cfg["n"], h.cfg["deg_step"], h.cfg["alpha"]
+    rng = np.random.default_rng(h.cfg["seed"])
+    sample = np.c_[np.round(rng.weibull(1.4, n) * 2.0, 2), np.round(rng.lognormal(1.0, 0.5, n), 2)]   # ties, tail
+    c = C.DirectSamplingContour(_M(), alpha, sample=sample, deg_step=deg)
+    h.reach()
+    M = int(round(360 / deg))
+    co = np.asarray(c.coordinates, dtype=float)
+    h.check(co.shape == (M, 2), "one-vertex-per-direction", f"{co.shape}")
+    # the direction grid: normals at pi/2 - j * step (anchored on the second axis, see the class documentation);
+    # every edge must lie on the tangent line of one grid direction, successive edges on successive directions
+    th = 0.5 * np.pi - 2 * np.pi * np.arange(M) / M
+    q = np.array([np.quantile(sample[:, 0] * np.cos(t) + sample[:, 1] * np.sin(t), 1 - alpha) for t in th])
+    scale = float(np.abs(sample).max())
+
+    def on(v, j):
+        return abs(v[0] * np.cos(th[j]) + v[1] * np.sin(th[j]) - q[j]) <= 1e-7 * scale
+
+    js, bad = [], 0
+    for k in range(M):
+        a, b = co[k], co[(k + 1) % M]
+        prev = js[-1] if js and js[-1] is not None else None
+        cands = ([(prev + 1) % M, (prev - 1) % M] if prev is not None else []) + list(range(M))
+        j = next((j for j in cands if on(a, j) and on(b, j)), None)
+        js.append(j)
+        bad += j is None
+    h.check(bad == 0, "every-edge-on-the-(1-alpha)-quantile-tangent-line-of-its-direction",
+            f"{bad} of {M} edges lie on no tangent line of the direction grid (n={n}, deg_step={deg})")
+    if bad == 0:
+        d = {(js[(k + 1) % M] - js[k]) % M for k in range(M)}
+        h.check(len(d) == 1 and d <= {1, M - 1} and len(set(js)) == M,
+                "normals-advance-by-the-step-and-cover-the-circle-once", f"steps between successive edges: {sorted(d)}")
+
+
 def obligations(tier):
+    # concrete large samples: n * (number of directions + 2) on both sides of 2**24
+    yield ("large_sample", h_large_sample, {"n": 60000, "deg_step": 1, "alpha": 0.05, "seed": 3}, {})
+    yield ("large_sample", h_large_sample, {"n": 300000, "deg_step": 5, "alpha": 0.001, "seed": 4}, {})
     for d in DIVISORS:
         if tier == "quick" and d < 5:
             continue   # 360..90 directions: minutes each, thorough tier
